@@ -29,12 +29,30 @@ typedef struct xcase {
 /* characters whose folding / decomposition expands */
 static const uint32_t USYM[] = {'a', 'A', 0xDF /* ss */, 0x149 /* 'n */, 0x390 /* 3 */, 0xFB03 /* ffi */, 0xE9 /* e + acute */, 0x1E9B, 0xAC01 /* hangul LVT */, 0x1F80,
                                 0x301, 0x323, 0x130, 0x3A3, 0x10400, 0x1D160 /* musical, decomposes */, 0x2000B, ' ',
-                                0x110000 /* beyond Unicode: a constraint violation wherever it stands */, 0x7FFFFFFF};
+                                0x110000 /* beyond Unicode: a constraint violation wherever it stands */, 0x7FFFFFFF,
+                                'I', 0xCC, 0x12E, 'J' /* as FIRST character these make wcsfc_s consult the locale name (tr, az, lt special casing) */};
 #define NUSYM ((int)(sizeof USYM / sizeof USYM[0]))
 
 /* local time is judged in several zones: in UTC alone a conversion that forgets the zone is indistinguishable */
 static const char *const XTZ[4] = {"UTC", "EST5", "CET-1", "NPT-5:45"};
 static void x_set_tz(int sel) { setenv("TZ", XTZ[sel & 3], 1); tzset(); }
+
+/* wcsfc_s has branches for locales named tr*, az* and lt* (Turkish/Azeri dotless i, Lithuanian dot-above rules). No such
+ * locale is installed; the driver clones C.utf8 under those names into $LOCPATH (lib/driver.py), which is all the library
+ * looks at. There is no reference result for them: only the memory, termination, clearing, handler and slack rules apply. */
+static const char *const XLOC[4] = {NULL, "tr_TR.UTF-8", "lt_LT.UTF-8", "az_AZ.UTF-8"};
+static char x_saved_locale[128];
+static int x_enter_locale(int sel) {
+    const char *cur;
+    x_saved_locale[0] = 0;
+    if (!XLOC[sel & 3]) return 0;
+    cur = setlocale(LC_ALL, NULL);
+    if (!cur || strlen(cur) >= sizeof x_saved_locale) return 0;
+    strcpy(x_saved_locale, cur);
+    if (!setlocale(LC_ALL, XLOC[sel & 3])) { x_saved_locale[0] = 0; return 0; }
+    return 1;
+}
+static void x_leave_locale(void) { if (x_saved_locale[0]) { setlocale(LC_ALL, x_saved_locale); x_saved_locale[0] = 0; } }
 
 static const int DM_TIME[] = {0, 1, 25, 26, 27, 40, 100, 119, 120, 121, 200, 4096, 4097};
 
@@ -130,6 +148,7 @@ static void x_describe(const void *k, char *buf, size_t n) {
 typedef struct xobs {
     int ran;
     unsigned char *dest; size_t dbytes, dmax_el; int w;
+    int loc;             /* wcsfc_s: index into XLOC of the locale the call ran in (0: the process locale) */
     int is_string;       /* dest holds a string result */
     int usable;          /* dest/dmax themselves are usable */
     int failed;          /* the call reported failure */
@@ -318,7 +337,11 @@ static void run_x(const xcase_t *c, int guard) {
             src[n] = 0;
             *lenp = n;
             O.is_string = 1; O.usable = !c->dest_null && c->dmax > 0 && c->dmax <= (int)RSIZE_MAX_WSTR; O.slack_promised = (c->fn == XF_WCSFC || c->fn == XF_WCSNORM);
-            if (c->fn == XF_WCSFC) AR_GUARDED(rc = _wcsfc_s_chk(c->dest_null ? NULL : (wchar_t *)(void *)dest, (rsize_t)c->dmax, c->src_null ? NULL : src, c->b ? NULL : lenp, bos));
+            if (c->fn == XF_WCSFC) {
+                O.loc = x_enter_locale(c->a) ? (c->a & 3) : 0;
+                AR_GUARDED(rc = _wcsfc_s_chk(c->dest_null ? NULL : (wchar_t *)(void *)dest, (rsize_t)c->dmax, c->src_null ? NULL : src, c->b ? NULL : lenp, bos));
+                x_leave_locale();
+            }
             else if (c->fn == XF_WCSNORM) AR_GUARDED(rc = _wcsnorm_s_chk(c->dest_null ? NULL : (wchar_t *)(void *)dest, (rsize_t)c->dmax, c->src_null ? NULL : src, (wcsnorm_mode_t)(c->a & 1 ? WCSNORM_NFC : WCSNORM_NFD), c->b ? NULL : lenp, bos));
             else if (c->fn == XF_TOWFC) {
                 O.is_string = 0; O.slack_promised = 0;
@@ -369,6 +392,7 @@ static const char *x_class(const xcase_t *c) {
     if (c->fn == XF_FOPEN || c->fn == XF_FREOPEN) return c->a ? "null-arg" : (c->b == 1 ? "missing-file" : "valid");
     if (c->dest_null) return "null-dest";
     if (c->src_null && (c->fn == XF_ASCTIME || c->fn == XF_CTIME || c->fn == XF_GETENV || c->fn == XF_GMTIME || c->fn == XF_LOCALTIME || c->fn >= XF_WCSFC)) return "null-src";
+    if (c->fn == XF_WCSFC && O.loc) { static char b[40]; snprintf(b, sizeof b, "%s:locale-%.2s", c->dmax < 5 ? "dmax<5" : "dmax>=5", XLOC[O.loc & 3]); return b; }
     if (c->fn >= XF_WCSFC) return c->dmax < 5 ? "dmax<5" : "dmax>=5";
     if (c->fn == XF_GETS) return c->b == 3 ? "line-starts-with-nul" : c->b == 2 ? "empty-input" : (c->a + 1 > c->dmax ? "line-too-long" : (c->a + 1 == c->dmax ? "line-exact-fit" : "line-fits"));
     if (c->fn == XF_ASCTIME || c->fn == XF_CTIME) return c->dmax < 26 ? "dmax<26" : (c->dmax < 120 ? "dmax<120" : "dmax>=120");
